@@ -222,11 +222,15 @@ Core2 == {C(t, <<k>>) : t \in ListTags \cup (SetTags \ {"sortedset"}), k \in {Ki
 Pal == IF Rich THEN Kids ELSE {Kid3, Kid5}
 
 HasCore(ks) == \E i \in 1..Len(ks) : ks[i] \in Core2
+\* outer tags at level 3 (all of them when Rich)
+T3List == IF Rich THEN ListTags \cup {"valueseq"} ELSE {"list", "tuple", "MyList", "namedtuple"}
+T3Set  == IF Rich THEN SetTags \ {"sortedset"} ELSE {"set", "MySet"}
+T3Map  == IF Rich THEN MapTags ELSE {"dict", "MyDict"}
 Level3 ==
-         {C(t, ks) : t \in ListTags \cup {"valueseq"},
+         {C(t, ks) : t \in T3List,
                      ks \in {x \in Seqs(Pal \cup Core2, 1, 2) : HasCore(x) /\ (Len(x) = 2 => (x[1] \in Pal \/ x[2] \in Pal))}}
-    \cup {C(t, ks) : t \in SetTags \ {"sortedset"}, ks \in {x \in SetKids(Pal \cup Core2) : HasCore(x)}}
-    \cup {C(t, ks) : t \in MapTags, ks \in {x \in MapKids(Pal \cup Core2, Pal \cup Core2) : Len(x) = 2 /\ HasCore(x)}}
+    \cup {C(t, ks) : t \in T3Set, ks \in {x \in SetKids(Pal \cup Core2) : HasCore(x)}}
+    \cup {C(t, ks) : t \in T3Map, ks \in {x \in MapKids(Pal \cup Core2, Pal \cup Core2) : Len(x) = 2 /\ HasCore(x)}}
 
 \* three brackets deep
 Deep ==  {C(t, <<C(t2, <<c>>)>>) : t \in {"list", "MyList"}, t2 \in {"tuple", "list"}, c \in Core2}
@@ -310,7 +314,7 @@ RefAccepted == done => Accepted
 StackBounded == Len(stack) <= 3
 
 \* vacuity witnesses (must be VIOLATED)
-Witness_Depth3     == ~(Len(stack) = 3 /\ shape.tag = "MyList" /\ stack[3].st = "term")
+Witness_Depth3     == ~(Len(stack) = 3 /\ shape.tag = "MyList" /\ stack[3].st = "open")
 Witness_MapInList  == ~(done /\ Accepted /\ out[1].k = "list" /\ \E i \in 1..Len(out[1].v) : out[1].v[i].k = "map")
 Witness_EmptyBrace == ~(done /\ Accepted /\ out[1].k = "empty_brace")
 Witness_QuoteInStr == ~(done /\ Accepted /\ out[1].k = "list" /\ Len(out[1].v) = 1 /\ out[1].v[1].k = "str"
